@@ -184,6 +184,37 @@ int main(int argc, char** argv) {
     string m1("\xFF", 1), m0("\x00", 1);
     return roundtrip("", nullptr, 0) | roundtrip("a", nullptr, 0) | roundtrip("a", &m0, 0) | roundtrip("a", &m1, 0);
   }
+  if (a.mode == "ascii_column") {
+    // all 256 byte values (aligned and unaligned start) dumped with PRINT_ASCII, colour off: cell k of the ASCII column is the byte itself
+    // iff it is printable ASCII (0x20..0x7E), a blank otherwise and outside the dumped range
+    for (uint64_t start : {(uint64_t)0, (uint64_t)5}) {
+      string d;
+      for (int k = 0; k < 256; k++) d += (char)k;
+      string text = format_data(d.data(), d.size(), start, nullptr, PrintDataFlags::PRINT_ASCII | PrintDataFlags::DISABLE_COLOR | PrintDataFlags::OFFSET_16_BITS);
+      size_t p = 0;
+      while (p < text.size()) {
+        size_t e = text.find('\n', p);
+        if (e == string::npos) e = text.size();
+        string line = text.substr(p, e - p);
+        p = e + 1;
+        size_t bar = line.find(" |");
+        RCHECK(bar != string::npos, "line without address separator: %s", line.c_str());
+        uint64_t addr = strtoull(line.substr(0, bar).c_str(), nullptr, 16);
+        size_t col0 = bar + 2 + 3 * 16 + 3;       // hex cells, then " | "
+        RCHECK(line.size() >= col0 + 16, "line too short for an ASCII column: %s", line.c_str());
+        for (int col = 0; col < 16; col++) {
+          uint64_t at = addr + col;
+          unsigned char got = (unsigned char)line[col0 + col];
+          unsigned char want = ' ';
+          if (at >= start && at - start < d.size()) { unsigned char b = (unsigned char)d[at - start]; want = (b >= 0x20 && b <= 0x7E) ? b : ' '; }
+          RCHECK(got == want, "ASCII cell for address %llX holds 0x%02X, expected 0x%02X (byte %s)", (unsigned long long)at, got, want,
+              (at >= start && at - start < d.size()) ? "in the dumped range" : "outside the dumped range");
+        }
+      }
+    }
+    printf("holds on these inputs\n");
+    return 0;
+  }
   if (a.mode == "hexdump") {
     // hex dump of `size` bytes at `start`: no exception, and the address + hex columns decode back to the bytes at their addresses
     uint64_t start = a.u("in_start"), size = a.u("in_size"), flags = a.u("in_flags");
